@@ -29,7 +29,7 @@ RULE = ('one bucket per operation family; a case = (operation, entry point, D<=4
         'broadcast into the target (class "value-bcast" is counted separately so that the conjunction can be read off '
         'the histogram); for all other operations: rank of the operand or of the result >= 2.  Distinct by descriptor hash.')
 ASSUMPTIONS = [
-    'NumPy applied to each coefficient slice x.data[d,p] is the specification; comparison is exact (==), also for fft/ifft '
+    'NumPy applied to each coefficient slice x.data[d,p] is the specification; comparison is exact (== and the same sign of every zero, real and imaginary part), also for fft/ifft '
     '(the per-slice reference is the identical numpy.fft call) and sum (data of the sum buckets are dyadic rationals, so '
     'every summation order is exact)',
     'view-ness is compared only when NumPy returns an ndarray that shares memory with its operand (a full integer index '
